@@ -328,6 +328,15 @@ def propagate_module_constants(tree, relpath, loader=None):
             if simple:
                 cands[st.targets[0].id] = v
     cands = {k: v for k, v in cands.items() if counts.get(k, 0) == 1}
+    # a module-level dictionary that the module writes to (a cache, a registry) is state, not a constant
+    written = set()
+    for n_ in ast.walk(tree):
+        if isinstance(n_, ast.Subscript) and isinstance(n_.ctx, (ast.Store, ast.Del)) and isinstance(n_.value, ast.Name):
+            written.add(n_.value.id)
+        elif isinstance(n_, ast.Call) and isinstance(n_.func, ast.Attribute) and isinstance(n_.func.value, ast.Name) \
+                and n_.func.attr in ('update', 'clear', 'pop', 'popitem', 'setdefault', '__setitem__', '__delitem__'):
+            written.add(n_.func.value.id)
+    cands = {k: v for k, v in cands.items() if not (isinstance(v, ast.Dict) and (k in written or not v.keys))}
     for k, v in imported_constants(tree, relpath, loader).items():
         if counts.get(k, 0) <= 1:
             cands[k] = v
